@@ -22,6 +22,9 @@ REQUIRED = ["eval:identify_outcomes", "eval:idc", "C03:models-evaluated", "tag:i
 TIMEOUT = {"quick": 900, "thorough": 7200}
 
 
+POOL: list = []
+
+
 def run_case(ctx, gd, q, via="outcomes"):
     from y0.algorithm.identify import Identification, Query, idc, identify_outcomes
     from y0.dsl import Variable
@@ -69,6 +72,54 @@ def run_shard(ctx):
         hostile_seen[gd["hostile"]] = hostile_seen.get(gd["hostile"], 0) + 1
         qcls["X-empty" if not q["X"] else q["cls"]] = qcls.get("X-empty" if not q["X"] else q["cls"], 0) + 1
         run_case(ctx, gd, q, via="outcomes" if i % 3 else "idc")
+        if "id.line7" in kernel.tags():
+            POOL.append((gd, q))
+    # feedback: IDC cases whose trace reached ID's line 7 (rare) are kept and mutated
+    fb = {"line7_cases": 0, "line7_then_line6": 0}
+    pool = list(POOL)
+    for i in range(ctx.share({"quick": 1000, "thorough": 40000}[ctx.tier])):
+        if pool and rng.random() < 0.85:
+            gd, q = rng.choice(pool)
+            gd = gg.mutate(gd, rng)
+            if rng.random() < 0.3:
+                q = gq.random_query(rng, gd, with_conditions=True, allow_empty_x=True) or q
+            if not (set(q["X"]) | set(q["Y"]) | set(q["Z"])) <= set(gd["nodes"]) or not q["Z"]:
+                continue
+        else:
+            gd = gg.random_admg(rng, rng.choice([4, 5, 5]), hostile=rng.choice(["onedistrict", "bichain", "bow", "none"]))
+            q = gq.random_query(rng, gd, with_conditions=True, allow_empty_x=True)
+            if q is None or not q["Z"]:
+                continue
+        run_case(ctx, gd, q)
+        tg = kernel.tags()
+        if "id.line7" in tg:
+            fb["line7_cases"] += 1
+            if "id.line6" in tg[tg.index("id.line7"):]:
+                fb["line7_then_line6"] += 1
+            if len(pool) < 400:
+                pool.append((gd, q))
+            else:
+                pool[rng.randrange(len(pool))] = (gd, q)
+    ctx.extras["feedback"] = fb
+    # edit histories: the same graph object is queried, edited in place and queried again
+    from y0.algorithm.identify import identify_outcomes
+    from y0.dsl import Variable
+
+    for _ in range(ctx.share({"quick": 60, "thorough": 1500}[ctx.tier])):
+        gd = gg.random_admg(rng, rng.randint(3, 5))
+        g = gg.to_nx(gd)
+        for _s in range(8):
+            q = gq.random_query(rng, gd, with_conditions=True, allow_empty_x=True)
+            if q and q["Z"]:
+                kernel.LOG.reset_case({"graph": gd, "X": q["X"], "Y": q["Y"], "Z": q["Z"], "via": "edit-history"})
+                try:
+                    res = identify_outcomes(g, {Variable(x) for x in q["X"]}, {Variable(y) for y in q["Y"]},
+                                            {Variable(z) for z in q["Z"]})
+                except Exception:  # noqa: BLE001
+                    res = None
+                ctx.case(f"{gg.key(gd)}|{q['X']}|{q['Y']}|{q['Z']}|hist", res is not None)
+            if rng.random() < 0.6:
+                gd = gg.edit_inplace(g, gd, rng)
     ctx.extras["hostile_classes"] = hostile_seen
     ctx.extras["query_classes"] = qcls
 
